@@ -101,6 +101,7 @@ def make_backend(world: World, listeners: list, nlisten: int = 1) -> AsyncIOBack
             for _ in range(nlisten):
                 sock = world.listener_socket(local=("127.0.0.1", 50000 + len(listeners)))
                 sock.tag = f"listener{len(listeners)}"
+                sock.wrapped = True
                 listeners.append(sock)
                 socks.append(sock)
             factory = AcceptedSocketFactory()
@@ -113,9 +114,14 @@ def make_backend(world: World, listeners: list, nlisten: int = 1) -> AsyncIOBack
             for _ in range(nlisten):
                 sock = world.dgram_socket(peer=None, local=("127.0.0.1", 50000 + len(listeners)))
                 sock.tag = f"listener{len(listeners)}"
+                sock.wrapped = False
                 listeners.append(sock)
                 socks.append(sock)
-            made = [await loop.create_datagram_endpoint(lambda: DatagramListenerProtocol(loop=loop), sock=sock) for sock in socks]
+            # same shape as the real method: all sockets are opened first, then wrapped one after the other
+            made = []
+            for sock in socks:
+                made.append(await loop.create_datagram_endpoint(lambda: DatagramListenerProtocol(loop=loop), sock=sock))
+                sock.wrapped = True
             return [DatagramListenerSocketAdapter(self, transport, protocol) for transport, protocol in made]
 
     return Backend()
@@ -137,20 +143,25 @@ class Op:
 
     def doc(self) -> dict:
         return {"i": self.i, "op": self.op, "launch_it": self.launch_it, "b": self.b, "e": self.e, "up": self.up, "result": self.result,
-                "snap": self.snap}
+                "snap": dict(self.snap)}
 
 
 class UpEvent:
-    def __init__(self, rec: Op, tick: Any, listeners: list, served: set) -> None:
+    """is_up_event of serve_forever: records the instant and which listeners the server says it is bound to."""
+
+    def __init__(self, rec: Op, tick: Any, served: set, addresses: Any) -> None:
         self.rec = rec
         self.tick = tick
-        self.listeners = listeners
         self.served = served
+        self.addresses = addresses
 
     def set(self) -> None:
         if self.rec.up is None:
             self.rec.up = self.tick()
-            self.served.update(s.tag for s in self.listeners if not s.closed_flag)
+            try:
+                self.served.update(f"listener{a.port - 50000}" for a in self.addresses())
+            except Exception:  # noqa: BLE001 - observation only
+                pass
 
 
 def _exc_name(exc: BaseException) -> str:
@@ -187,7 +198,7 @@ def run_async(ctx: Ctx, cfg: dict) -> dict:
         rec.b = tick()
         try:
             if rec.op == "S":
-                await server.serve_forever(is_up_event=UpEvent(rec, tick, listeners, served))
+                await server.serve_forever(is_up_event=UpEvent(rec, tick, served, server.get_addresses))
             elif rec.op == "H":
                 await server.shutdown()
             else:
@@ -324,6 +335,7 @@ def run_async(ctx: Ctx, cfg: dict) -> dict:
     out["ops"] = [o.doc() for o in ops]
     out["iterations"] = loop.iterations
     out["served_listeners"] = sorted(served)
+    out["unwrapped_listeners"] = sorted(s.tag for s in listeners if not s.wrapped)
     out["unhandled"] = len(loop.unhandled)
     out["unhandled_detail"] = loop.unhandled[:2]
     return out
@@ -374,13 +386,14 @@ def oracle_async(obs: dict) -> list[str]:
             if c["snap"].get("listeners_open"):
                 # distinguish the listener of an activation that was still in flight when server_close ran (it is closed a
                 # moment later by the refused serve_forever) from a listener of a server that was up
-                inflight = not (set(c["snap"]["listeners_open"]) & set(obs.get("served_listeners", ())))
-                bad.append("listener-of-inflight-activation-open-when-server-close-returned" if inflight else "listener-open-when-server-close-returned")
+                bad.append(_open_listener_symptom(obs, c["snap"]["listeners_open"], False) + "-when-server-close-returned")
             if c["snap"].get("is_listening"):
                 bad.append("is-listening-true-when-server-close-returned")
     closed_ok = [c for c in C if c["result"] == "ok" and c["e"] is not None]
-    if closed_ok and (final["listeners_open"] or final["is_listening"]):
-        bad.append("listener-open-after-server-close")
+    if closed_ok and final["listeners_open"]:
+        bad.append(_open_listener_symptom(obs, final["listeners_open"], True) + "-at-the-end-after-server-close")
+    if closed_ok and final["is_listening"]:
+        bad.append("is-listening-true-at-the-end-after-server-close")
     pending = []
     for s in S:
         overlapping = [x for x in S if x is not s and x["b"] < s["b"] and _end(x) > s["b"]]
@@ -421,6 +434,18 @@ def oracle_async(obs: dict) -> list[str]:
     if not pending and final["is_serving"]:
         bad.append("is-serving-true-with-no-serve-forever")
     return sorted(set(bad))
+
+
+def _open_listener_symptom(obs: dict, open_tags: list, at_end: bool) -> str:
+    """Which kind of listener socket is still open: one a server was up with (serious), or one opened by an activation
+    (serve_forever -> server_activate -> create_*_listeners) that server_close / shutdown cancelled half-way."""
+    if set(open_tags) & set(obs.get("served_listeners", ())):
+        return "listener-open"
+    if not at_end:
+        return "listener-of-inflight-activation-open"
+    if set(open_tags) <= set(obs.get("unwrapped_listeners", ())):
+        return "unwrapped-socket-of-cancelled-activation-leaked"
+    return "wrapped-listener-of-cancelled-activation-leaked"
 
 
 def _outcome_class(obs: dict) -> str:
@@ -502,6 +527,402 @@ def _replays_identically(run: Any, choices: list[int], res: JobResult, what: str
 
 
 # ---------------------------------------------------------------------------------------------------------
+# threads part
+
+
+THREAD_HORIZON = 6000
+
+
+def run_threads(ctx: Ctx, cfg: dict, trace: bool = False) -> dict:
+    """One execution: one REAL thread per call of cfg['ops'] on a Standalone*NetworkServer under the baton scheduler.
+    'N' = NetworkServerThread(server).start() then .join() (which shuts the server down)."""
+    if vthreads.tainted():
+        raise vthreads.HarnessHang("an earlier execution left a thread behind: " + vthreads.tainted()[0])
+    kind = cfg["kind"]
+    world = World(ctx, horizon=THREAD_HORIZON)
+    sched = vthreads.Scheduler(ctx, world, horizon=THREAD_HORIZON, costed_switches=bool(cfg.get("costed_switches")))
+    sched.keep_trace = trace
+    listeners: list = []
+    served: set = set()
+    ops = [Op(i, o) for i, o in enumerate(cfg["ops"])]
+    st = {"tick": 0}
+    loops: dict[int, Any] = {}  # op index -> event loop created by that serve_forever
+
+    def tick() -> int:
+        st["tick"] += 1
+        return st["tick"]
+
+    class Backend(AsyncIOBackend):
+        __slots__ = ()
+
+        async def create_tcp_listeners(self, host: Any, port: int, backlog: int, *, reuse_port: bool = False) -> Any:
+            await asyncio.sleep(0)
+            sock = world.listener_socket(local=("127.0.0.1", 50000 + len(listeners)))
+            sock.tag = f"listener{len(listeners)}"
+            sock.wrapped = True
+            sock.loop = asyncio.get_running_loop()
+            listeners.append(sock)
+            if cfg.get("client"):
+                c = world.stream_socket()
+                c.tag = "client"
+                c.rx.put(b"hello\n")
+                sock.accept_q.append(c)
+            return [ListenerSocketAdapter(self, sock, AcceptedSocketFactory())]
+
+        async def create_udp_listeners(self, host: Any, port: int, *, reuse_port: bool = False) -> Any:
+            await asyncio.sleep(0)
+            loop = asyncio.get_running_loop()
+            sock = world.dgram_socket(peer=None, local=("127.0.0.1", 50000 + len(listeners)))
+            sock.tag = f"listener{len(listeners)}"
+            sock.wrapped = False
+            sock.loop = loop
+            listeners.append(sock)
+            if cfg.get("client"):
+                sock.rxd.append((b"hello", ("127.0.0.1", 40000)))
+            transport, protocol = await loop.create_datagram_endpoint(lambda: DatagramListenerProtocol(loop=loop), sock=sock)
+            sock.wrapped = True
+            return [DatagramListenerSocketAdapter(self, transport, protocol)]
+
+    class Up:
+        """is_up_event: runs in the loop thread of the serve_forever it belongs to."""
+
+        def __init__(self, rec: Op) -> None:
+            self.rec = rec
+
+        def set(self) -> None:
+            if self.rec.up is None:
+                self.rec.up = tick()
+                loop = loops.get(self.rec.i)
+                served.update(s.tag for s in listeners if not s.closed_flag and s.wrapped and s.loop is loop)
+
+    cur_rec: dict[int, Op] = {}  # VThread index -> op being executed by that thread
+
+    def loop_factory() -> Any:
+        loop = sched.loop_factory()
+        th = sched.current_thread()
+        rec = cur_rec.get(th.index) if th is not None else None
+        if rec is not None:
+            loops[rec.i] = loop
+        return loop
+
+    def snap() -> dict:
+        return {"listeners_open": [s.tag for s in listeners if not s.closed_flag],
+                "loops_running": sorted(i for i, lp in loops.items() if lp.is_running())}
+
+    out: dict[str, Any] = {}
+    with vthreads.installed(sched):
+        backend = Backend()
+        if kind == "tcp":
+            server: Any = StandaloneTCPNetworkServer("127.0.0.1", 0, StreamProtocol(StringLineSerializer()), EchoStream(), backend,
+                                                     runner_options={"loop_factory": loop_factory})
+        else:
+            server = StandaloneUDPNetworkServer("127.0.0.1", 0, DatagramProtocol(StringLineSerializer()), EchoDatagram(), backend,
+                                                runner_options={"loop_factory": loop_factory})
+
+        def body(rec: Op) -> Any:
+            def f() -> None:
+                th = sched.current_thread()
+                cur_rec[th.index] = rec
+                rec.b = tick()
+                try:
+                    if rec.op == "S":
+                        server.serve_forever(is_up_event=Up(rec))
+                    elif rec.op == "H":
+                        server.shutdown()
+                    elif rec.op == "C":
+                        server.server_close()
+                    elif rec.op == "N":
+                        inner = Op(100 + rec.i, "S")
+                        nst = NetworkServerThread(server)
+                        # the helper thread runs serve_forever: make its loop attributable to this call
+                        orig_run = nst.run
+
+                        def run_wrapper() -> None:
+                            t2 = sched.current_thread()
+                            cur_rec[t2.index] = rec
+                            orig_run()
+
+                        nst.run = run_wrapper  # type: ignore[method-assign]
+                        nst.start()
+                        rec.up = tick()
+                        rec.snap["up_listeners_open"] = [s.tag for s in listeners if not s.closed_flag]
+                        nst.join()
+                        rec.snap["alive_after_join"] = nst.is_alive()
+                        del inner
+                    rec.result = "ok"
+                except Exception as exc:  # noqa: BLE001 - the oracle decides
+                    rec.result = _exc_name(exc)
+                rec.e = tick()
+                rec.snap.update(snap())
+                if rec.op == "H" and rec.result == "ok":
+                    # public API, from the thread that called shutdown(), right after it returned
+                    rec.snap["is_serving"] = server.is_serving()
+                    rec.snap["e2"] = tick()
+
+            return f
+
+        for rec in ops:
+            sched.spawn(body(rec), f"{rec.op}{rec.i}")
+        status = sched.run()
+        out["status"] = status
+        out["ops"] = [o.doc() for o in ops]  # before the deterministic continuation
+        out["parked"] = [(t.name, t.parked_kind) for t in sched.threads if not t.done]
+        out["quiescent"] = snap()
+        out["thread_exc"] = [(t.name, type(t.exc).__name__, str(t.exc)[:200]) for t in sched.threads if t.exc is not None]
+        out["steps"] = sched.steps
+        out["preemptions"] = sched.preemptions
+        out["free_switches"] = sched.free_switches
+        out["fair_yields"] = sched.fair_yields
+        # deterministic continuation: whatever is still serving legitimately must be stoppable
+        fin: dict[str, Any] = {}
+
+        def cleanup() -> None:
+            fin["is_serving_before"] = server.is_serving()
+            server.shutdown()
+            fin["shutdown"] = "ok"
+            server.server_close()
+            fin["close"] = "ok"
+
+        if status == "deadlock" and all(k == "select" for _n, k in out["parked"]):
+            sched.spawn(cleanup, "cleanup")
+            out["cleanup_status"] = sched.run(explore=False)
+        elif status == "ok":
+            sched.spawn(cleanup, "cleanup")
+            out["cleanup_status"] = sched.run(explore=False)
+        else:
+            out["cleanup_status"] = "skipped"
+        out["cleanup"] = fin
+        out["final"] = snap()
+        out["steps_total"] = sched.steps
+        if trace:
+            out["trace"] = [f"{sched.threads[i].name}:{k}" for i, k in sched.trace]
+    world.close_all()
+    out["served_listeners"] = sorted(served)
+    out["unwrapped_listeners"] = sorted(s.tag for s in listeners if not s.wrapped)
+    out["listeners"] = len(listeners)
+    return out
+
+
+def oracle_threads(obs: dict) -> list[str]:
+    """Reference model for concurrent calls.  Instants come from one logical clock (exactly one thread runs at a time), so
+    'call x began before call y ended' is exact; the oracle only claims what holds for EVERY linearisation of overlapping
+    calls (a call that overlaps a serve_forever's start-up may or may not affect it)."""
+    bad: list[str] = []
+    status = obs["status"]
+    if status == "horizon":
+        return ["horizon"]
+    if obs["thread_exc"]:
+        return ["thread-died-" + obs["thread_exc"][0][1]]
+    ops = obs["ops"]
+    S = [o for o in ops if o["op"] == "S" and o["b"] is not None]
+    H = [o for o in ops if o["op"] == "H" and o["b"] is not None]
+    C = [o for o in ops if o["op"] == "C" and o["b"] is not None]
+    N = [o for o in ops if o["op"] == "N" and o["b"] is not None]
+    if status == "deadlock":
+        for name, k in obs["parked"]:
+            if name[0] == "H":
+                bad.append("shutdown-never-returned")
+            elif name[0] == "C":
+                bad.append("server-close-never-returned")
+            elif name[0] == "N":
+                bad.append("server-thread-start-or-join-never-returned")
+            elif k != "select":
+                bad.append("serve-forever-blocked-outside-its-loop")
+        if bad:
+            return sorted(set(bad))
+    for o in ops:
+        if o["b"] is None:
+            bad.append("thread-never-ran")
+    for h in H:
+        if h["e"] is None:
+            continue
+        if h["result"] != "ok":
+            bad.append("shutdown-raised-" + str(h["result"]))
+            continue
+        # every serve_forever that was up before shutdown() was called: its event loop must have stopped
+        for s in S:
+            if s["up"] is not None and s["up"] < h["b"] and s["i"] in h["snap"]["loops_running"]:
+                bad.append("shutdown-returned-while-serving")
+        # is_serving() right after: must be false unless some serve_forever may legitimately be (coming) up
+        maybe_up = [s for s in S + N if not (s["up"] is not None and s["up"] < h["b"]) and _end(s) > h["e"]]
+        if h["snap"].get("is_serving") and not maybe_up:
+            bad.append("is-serving-true-after-shutdown-returned")
+    for c in C:
+        if c["e"] is None:
+            continue
+        if c["result"] == "BusyResourceError":
+            if not any(s["b"] < c["e"] and (s["up"] if s["up"] is not None else _end(s)) > c["b"] for s in S + N):
+                bad.append("server-close-busy-outside-setup-window")
+            continue
+        if c["result"] != "ok":
+            bad.append("server-close-raised-" + str(c["result"]))
+            continue
+        if c["snap"]["listeners_open"]:
+            bad.append(_open_listener_symptom(obs, c["snap"]["listeners_open"], False) + "-when-server-close-returned")
+    closed_ok = [c for c in C if c["result"] == "ok" and c["e"] is not None]
+    if closed_ok and obs["quiescent"]["listeners_open"]:
+        bad.append(_open_listener_symptom(obs, obs["quiescent"]["listeners_open"], True) + "-at-the-end-after-server-close")
+    pending = []
+    for s in S:
+        r = s["result"]
+        overlapping = [x for x in S + N if x is not s and x["b"] < _end(s) and _end(x) > s["b"]]
+        if r == "ServerAlreadyRunning":
+            if not overlapping:
+                bad.append("serve-forever-spurious-ServerAlreadyRunning")
+            continue
+        if r == "ServerClosedError":
+            if not any(c["b"] < _end(s) for c in C):
+                bad.append("serve-forever-spurious-ServerClosedError")
+            continue
+        if any(c["e"] < s["b"] for c in closed_ok):
+            bad.append("serve-forever-after-close-not-refused:" + str(r))
+            continue
+        # another serve_forever was up before this one was called and nobody asked it to stop before this one returned
+        if any(x["up"] is not None and x["up"] < s["b"] and not any(y["b"] < _end(s) for y in H + C + N if y is not x)
+               and _end(x) > _end(s) for x in S if x is not s):
+            bad.append("second-serve-forever-not-refused:" + str(r))
+            continue
+        if r == "ok":
+            if not any(x["b"] < s["e"] and _end(x) > s["b"] for x in H + C + N):
+                bad.append("serve-forever-returned-spontaneously")
+            continue
+        if r is None:
+            pending.append(s)
+            if s["up"] is None:
+                bad.append("serve-forever-hangs-before-being-up")
+            elif any(h["b"] > s["up"] for h in H):
+                bad.append("serve-forever-not-stopped-by-shutdown")
+            elif not any(c["e"] > s["b"] for c in closed_ok) and not obs["cleanup"].get("is_serving_before"):
+                bad.append("serve-forever-not-serving")
+            continue
+        bad.append("serve-forever-raised-" + r)
+    if len(pending) > 1:
+        bad.append("two-serve-forever-in-progress")
+    for n in N:
+        if n["e"] is None:
+            continue
+        if n["result"] != "ok":
+            bad.append("server-thread-raised-" + str(n["result"]))
+        if n["snap"].get("alive_after_join"):
+            bad.append("server-thread-alive-after-join")
+        if n["i"] in n["snap"].get("loops_running", ()):
+            bad.append("server-thread-join-returned-while-serving")
+    if not bad:
+        # the deterministic continuation: shutdown() + server_close() must stop and close whatever is left
+        if obs["cleanup_status"] != "ok":
+            bad.append("final-shutdown-and-close-" + obs["cleanup_status"])
+        elif obs["cleanup"].get("close") != "ok":
+            bad.append("final-shutdown-and-close-failed")
+        elif obs["final"]["listeners_open"]:
+            bad.append(_open_listener_symptom(obs, obs["final"]["listeners_open"], True) + "-after-final-shutdown-and-close")
+        elif obs["final"]["loops_running"]:
+            bad.append("loop-running-after-final-shutdown-and-close")
+    return sorted(set(bad))
+
+
+def _thread_outcome(obs: dict) -> str:
+    return " ".join(f"{o['op']}:{o['result'] if o['result'] is not None else ('serving' if o['up'] is not None else 'pending')}" for o in obs["ops"])
+
+
+def thread_configs(tier: str) -> list[dict]:
+    """Thread sets (creation order = default priority when the running thread blocks; which thread starts is free)."""
+    quick = tier == "quick"
+    one = ["S", "H", "C", "N"]
+    two = ["SS", "SH", "SC", "HC", "NH", "NC", "NS"]
+    three = ["SHC", "SSH", "SSC", "SHH", "SCC", "NHC"]
+    three_alt = ["CHS", "HSS", "CSS", "HHS", "CCS", "CHN"]  # the same sets with the opposite default priority
+    four = ["SSHC", "SHHC", "SHCC", "SSHH"]
+    out = []
+    for kind in ("tcp", "udp"):
+        for client in (0, 1):
+            for m in one + two:
+                out.append({"kind": kind, "ops": m, "client": client, "bound": 2 if quick else 3})
+            for m in three:
+                out.append({"kind": kind, "ops": m, "client": client, "bound": 2 if quick or client else 3})
+        for m in three_alt:
+            out.append({"kind": kind, "ops": m, "client": 0, "bound": 2})
+        if not quick:
+            for m in four:
+                out.append({"kind": kind, "ops": m, "client": 0, "bound": 2})
+    return out
+
+
+def _children(ctx: Ctx, prefix_len: int, bound: int) -> list[list[int]]:
+    """The prefixes explore() would push after running ``ctx`` (same rule), in its order."""
+    out = []
+    cost = 0
+    for i, c in enumerate(ctx.choices):
+        n, _label, costed = ctx.points[i]
+        if i >= prefix_len and cost + (1 if costed else 0) <= bound:
+            for alt in range(1, n):
+                out.append(ctx.choices[:i] + [alt])
+        if c and costed:
+            cost += 1
+    return out
+
+
+def run_threads_job(job: dict, res: JobResult) -> None:
+    cfg = {"kind": job["kind"], "ops": job["ops"], "client": job["client"], "costed_switches": 1}
+    bound = job["bound"]
+    found: dict[str, tuple[Ctx, dict]] = {}
+    classes: set = set()
+    what = f"threads/{job['kind']}/{job['ops']}/client{job['client']}"
+
+    def check(ctx: Ctx, obs: dict) -> None:
+        res.evaluations += 1
+        bad = oracle_threads(obs)
+        oc = _thread_outcome(obs)
+        for part in oc.split():
+            res.outcome("threads " + part)
+        res.count("threads scheduling points", obs["steps"])
+        res.count("threads preemptions", obs["preemptions"])
+        res.count("threads free switches", obs["free_switches"])
+        if obs["fair_yields"]:
+            res.count("threads fairness yields", obs["fair_yields"])
+        res.counters["threads max scheduling points per execution"] = max(res.counters.get("threads max scheduling points per execution", 0), obs["steps"])
+        classes.add(oc)
+        if any(ctx.choices):
+            res.nontrivial.add(digest((what, oc, obs["quiescent"], obs["final"])))
+        for b in bad:
+            res.outcome("VIOLATION threads " + b)
+            if b not in found or len(ctx.choices) < len(found[b][0].choices):
+                found[b] = (ctx, obs)
+
+    def run(ctx: Ctx) -> dict:
+        return run_threads(ctx, cfg)
+
+    try:
+        # the job owns the part-th slice of the root's subtrees (the root itself belongs to part 0)
+        root = Ctx([], None, bound)
+        robs = run(root)
+        kids = _children(root, 0, bound)
+        mine = [k for j, k in enumerate(kids) if j % job["slices"] == job["slice"]]
+        if job["slice"] == 0:
+            check(root, robs)
+        if mine:
+            stats = explore(run, bound=bound, check=check, first_prefixes=mine, max_runs=job.get("max_runs", 400000))
+            res.transitions += stats["points"]
+            if stats["cap_hit"]:
+                res.caps.append(f"threads max_runs {what}")
+    except vthreads.HarnessHang as exc:
+        res.internal.append(f"{what}: {exc}")
+        return
+    res.count("threads jobs")
+    for b, (ctx, obs) in found.items():
+        if not _replays_identically(run, ctx.choices, res, what):
+            continue
+        res.violations.append(Violation(
+            f"threads/{job['kind']}/{b.split(':')[0]}",
+            f"Standalone{job['kind'].upper()}NetworkServer threads={job['ops']} backlog-client={job['client']} ({_thread_outcome(obs)}): {b}; "
+            f"parked={obs['parked']} quiescent={obs['quiescent']} choices={ctx.choices}",
+            {"part": "threads", "cfg": cfg, "choices": list(ctx.choices), "labels": [p[1] for p in ctx.points]},
+        ))
+    if job["slice"] == 0 and len(job["ops"]) >= 3 and len(res.samples) < 3:
+        res.samples.append({"part": "threads", "kind": job["kind"], "threads": job["ops"], "backlog_client": job["client"],
+                            "preemption_bound": bound, "outcomes_in_this_slice": sorted(classes)[:6]})
+
+
+# ---------------------------------------------------------------------------------------------------------
 # jobs
 
 
@@ -520,6 +941,11 @@ def jobs(tier: str) -> list[dict]:
                 if ch:
                     # bound = number of calls: every call at every boundary (complete for these sequences)
                     out.append({"part": "async", "kind": kind, "nlisten": nlisten, "seqs": ch, "bound": 5, "tier": tier, "chunk": k})
+    for cfg in thread_configs(tier):
+        n = len(cfg["ops"])
+        parts = 1 if n == 1 else (2 if n == 2 and cfg["bound"] == 2 else (6 if cfg["bound"] == 2 and n == 3 else 24))
+        for part in range(parts):
+            out.append({"part": "threads", **cfg, "slices": parts, "slice": part, "tier": tier})
     return out
 
 
@@ -527,6 +953,8 @@ def run_job(job: dict) -> JobResult:
     res = JobResult()
     if job["part"] == "async":
         run_async_job(job, res)
+    else:
+        run_threads_job(job, res)
     return res
 
 
@@ -537,7 +965,8 @@ def replay(doc: dict) -> tuple[bool, str]:
         obs = run_async(ctx, rp["cfg"])
         bad = oracle_async(obs)
     else:
-        raise NotImplementedError
+        obs = run_threads(ctx, rp["cfg"], trace=True)
+        bad = oracle_threads(obs)
     lines = [f"cfg={rp['cfg']}", f"choices={rp['choices']}", "labels=" + ",".join(p[1] for p in ctx.points)]
     for o in obs["ops"]:
         lines.append(f"  call {o}")
